@@ -1321,7 +1321,7 @@ class Scalar(Qube):
             result = Scalar(new_values, new_mask, units=self._units_)
 
             # Replace the masked values by the max
-            new_values[new_mask] = result.max()
+            new_values[new_mask] = result.max(builtins=False)._values_
 
         return result.wod
 
